@@ -22,7 +22,7 @@ RULE = ("Stochastic model programs with pub/sub fan-out: C02-style handlers + ra
         "subscribe/unsubscribe listeners (handlers do so too). "
         "(i) in-process (Hypothesis): each program is run plain, with a stop()/start() pause after event k, with a "
         "bounded run, after unrelated prior activity, and as the second replication on the same simulator, model and "
-        "re-seeded stream objects; digests (executed events, normalised notification stream, "
+        "re-seeded stream objects, and with another simulator initialised and run while this one is paused; digests (executed events, normalised notification stream, "
         "stream draws, delivery log, every statistics getter as hex floats) must be identical, and every fire must be "
         "delivered in subscription order. (ii) cross-process (parent_checks): the same batch of programs is executed "
         "by child interpreters under {PYTHONHASHSEED 0,1,4242,random} x {0, 1000 prior SimEvents/EventTypes/objects} "
@@ -171,6 +171,7 @@ def run_case(case):
     keep = common.prior_activity(case["prior"])
     variants.append(("after-prior-activity", ["plain"]))
     variants.append(("second-replication-same-objects", ["plain", "twice"]))
+    variants.append(("other-simulator-during-pause", ["pause-other", case["k"]]))
     for name, drive in variants:
         d = common.run_program(case, drive[:1] + drive[2:] if drive[-1] == "twice" else drive, twice=drive[-1] == "twice")
         if d != plain:
